@@ -196,6 +196,17 @@ impl Session<JunosLocal> {
     }
 }
 
+#[cfg(feature = "verif")]
+impl<T: Transport> Session<T> {
+    /// Verification hook: establish a NETCONF session over an arbitrary [`Transport`].
+    ///
+    /// Forwards to the private constructor used by all transport-specific constructors.
+    #[allow(clippy::missing_errors_doc)]
+    pub async fn verif_new(transport: T) -> Result<Self, Error> {
+        Self::new(transport).await
+    }
+}
+
 impl<T: Transport> Session<T> {
     #[tracing::instrument(skip(transport), level = "trace")]
     async fn new(transport: T) -> Result<Self, Error> {
